@@ -32,7 +32,8 @@ TOutcome ==
           /\ (sc.panic.value = "int" => Cur.msg = "recovered plainly")
           \* "the client receives the error that function returned": with its metadata, and next to the trailers the
           \* handler had set before it panicked
-          /\ (sc.panic.value # "int" => Cur.recmeta = "m") /\ (sc.kind \in {"server", "bidi"} => Cur.rectrl = "t")
+          /\ (sc.panic.value # "int" => Cur.recmeta = "m" /\ Cur.recdet = "rec-detail")
+          /\ (sc.kind \in {"server", "bidi"} => Cur.rectrl = "t")
      ELSE ~Cur.ok /\ Cur.handle_calls = 0
 Normal == TReset \/ ((TApply \/ TObs \/ TOutcome) /\ Consume /\ UNCHANGED failed)
 TraceNext == \/ (~failed /\ Normal)
